@@ -74,6 +74,10 @@ extern "C" void harness_main()
   if (n < MINLEN || n > MAXLEN) return;              // C08's subject
   symx_note_str("T", text);
   symx_note("len", n);
+  // tag the assertion messages with the mnemonic so that findings are reported per instruction
+  static char tag[40], m1[200], m2[200], m3[200], m4[200], m5[200];
+  { int k = 0; tag[k++] = ' '; tag[k++] = '['; for (int i = 0; text[i] != 0 && text[i] != ' ' && k < 30; i++) { if (symx_is_symbolic((uint8_t)text[i])) break; tag[k++] = text[i]; } tag[k++] = ']'; tag[k] = 0; }
+#define TAGGED(buf, m) (strcpy(buf, m), strcat(buf, tag), buf)
   make_source(src, text);
   AsmContext *c1 = new AsmContext();
   int e1 = vp_assemble(c1, src);
@@ -87,20 +91,20 @@ extern "C" void harness_main()
   c1->memory.endian = ENDIAN;
   int d2 = DISASM_FN(&c1->memory, BASE, text2, sizeof(text2), FLAGS, &cmin, &cmax);
   symx_note_str("T2", text2);
-  symx_assert(same_instruction(text, text2), "C07: re-assembled bytes disassemble to the same instruction (numbers compared by value)");
+  symx_assert(same_instruction(text, text2), TAGGED(m1, "C07: re-assembled bytes disassemble to the same instruction (numbers compared by value)"));
   // C01: walking the disassembler over the emitted bytes consumes exactly the bytes emitted
-  symx_assert(d2 == n2, "C01: disassembler consumes exactly the bytes the assembler emitted");
+  symx_assert(d2 == n2, TAGGED(m2, "C01: disassembler consumes exactly the bytes the assembler emitted"));
   // C01: encode -> decode -> encode is a fixpoint (c1's bytes are assembler output)
   make_source(src2, text2);
   AsmContext *c2 = new AsmContext();
   int e2 = vp_assemble(c2, src2);
   if (e2 != 0) { symx_cover("second-rejected"); return; }
   int n3 = c2->address - BASE;
-  symx_assert(n3 == n2, "C01: re-assembling the disassembly yields the same length");
+  symx_assert(n3 == n2, TAGGED(m3, "C01: re-assembling the disassembly yields the same length"));
   if (n3 == n2)
   {
     int same = 1;
     for (int i = 0; i < n2 && i < 16; i++) same &= (c2->memory.read8(BASE + i) == c1->memory.read8(BASE + i));
-    symx_assert(same, "C01: re-assembling the disassembly yields the same bytes");
+    symx_assert(same, TAGGED(m4, "C01: re-assembling the disassembly yields the same bytes"));
   }
 }
